@@ -17,6 +17,19 @@ Theorem C02_conservation : forall h n0 p' os,
 Proof. exact conservation. Qed.
 Print Assumptions C02_conservation.
 
+(* The same three statements (conservation, uniqueness, events exactly once) for histories run
+   in the presence of the contract: a stored value that is not a resource but owns resources in its
+   fields (optional field, array, dictionary) and is only accessed in place.  What the contract owns
+   counts as stored; uuid 0 is the contract value itself. *)
+Theorem C02_conservation_with_contract : forall h n0 p' os, 0 < n0 ->
+  run_hist h (init_pstate n0) = (p', os) ->
+  Permutation (0 :: created_ok n0 os) (map uuid3 (destroyed_ok os) ++ uuids_l (p_store p')) /\
+  NoDup (map uuid3 (destroyed_ok os) ++ uuids_l (p_store p')) /\
+  forall u e t, In (u, e, t) (destroyed_ok os) ->
+    cnt u (map fst (events_of (destroyed_ok os))) = if e then 1%nat else 0%nat.
+Proof. intros h n0 p' os Hn H. exact (conservation_from h _ p' os (hinv_contract n0 Hn) H). Qed.
+Print Assumptions C02_conservation_with_contract.
+
 (* Per transaction, from any well-formed committed state: what was stored before plus what the
    transaction created is what it destroyed plus what is stored afterwards. *)
 Theorem C02_conservation_tx : forall cs p p' o, pwf p -> run_tx cs p = (p', o) ->
